@@ -54,6 +54,8 @@ def kindAllowed (fixed : Bool) (t : HeapId) : Kind → Bool
   | .udata => true
   | .shallow => fixed      -- the code as it is copies string arrays shallowly (known defect)
   | .code => t == []
+  | .aarr => true
+  | .uarr => true
   | .thread => false       -- only `spawn` creates threads
 
 def mapRootsObj (s : State) (t : HeapId) (f : List Nat → List Nat) (i : Nat) : Option Obj :=
